@@ -185,38 +185,81 @@ func runC14(c *eng.Ctx) {
 		}
 		ok := true
 		nret := 0
-		// (a) without passing the equal-configuration-id edge, every return gives a definitely false value
-		for n, vals := range g.ReachVals(eng.Query{FromEntry: true, AvoidEdge: g.FactEdge(confEq)}) {
-			ret, isR := n.Node.(*ast.ReturnStmt)
-			if !isR || len(ret.Results) != 1 {
-				continue
+		// (a) assuming the configuration ids differ, the result cannot be true
+		confDiffers := func(fc eng.Fact) bool {
+			x, y, eq, isEq := eng.EqAtom(fc)
+			if !isEq {
+				return false
 			}
-			for v := range vals {
-				if g.EvalUnder(ret.Results[0], v) != -1 {
-					ok = false
+			isEv := func(e ast.Expr) bool {
+				s, isS := ast.Unparen(e).(*ast.SelectorExpr)
+				return isS && s.Sel.Name == "ConfigurationId" && !eng.IsField(info, e, confID)
+			}
+			if (eng.IsField(info, x, confID) && isEv(y)) || (eng.IsField(info, y, confID) && isEv(x)) {
+				return !eq // the fact that holds is the inequality
+			}
+			return false
+		}
+		if canTrue, _ := g.BoolResultUnder(confDiffers); canTrue {
+			ok = false
+		}
+		_ = confEq
+		// (b) a result that can be true requires the comma-ok of the lookup by the event's webhook id: the returned
+		// expression (through locals) is that value, or a conjunction one of whose operands is
+		isLookupOK := func(e ast.Expr) bool {
+			srcs := valueSources(info, f.Decl.Body, e, 4)
+			if len(srcs) == 0 {
+				return false
+			}
+			for _, src := range srcs {
+				if b, isC := constBool(info, src); isC && !b {
+					continue
+				}
+				ix, isIx := ast.Unparen(src).(*ast.IndexExpr)
+				if !isIx || !eng.IsField(info, ix.X, links) {
+					return false
+				}
+				if sx, isS := ast.Unparen(ix.Index).(*ast.SelectorExpr); !isS || sx.Sel.Name != "WebhookId" {
+					return false
 				}
 			}
+			return true
 		}
-		// (b) a returned value that can be true is the comma-ok of the lookup by the event's webhook id
+		var conjuncts func(e ast.Expr) []ast.Expr
+		conjuncts = func(e ast.Expr) []ast.Expr {
+			e = ast.Unparen(e)
+			if b, isB := e.(*ast.BinaryExpr); isB && b.Op == token.LAND {
+				return append(conjuncts(b.X), conjuncts(b.Y)...)
+			}
+			return []ast.Expr{e}
+		}
 		for _, n := range g.Nodes {
 			ret, isR := n.Node.(*ast.ReturnStmt)
 			if !isR || len(ret.Results) != 1 {
 				continue
 			}
 			nret++
+			if b, isC := constBool(info, ret.Results[0]); isC && !b {
+				continue
+			}
+			found := false
 			for _, src := range valueSources(info, f.Decl.Body, ret.Results[0], 4) {
 				if b, isC := constBool(info, src); isC && !b {
+					found = true
 					continue
 				}
-				lookup := false
-				if ix, isIx := ast.Unparen(src).(*ast.IndexExpr); isIx && eng.IsField(info, ix.X, links) {
-					if s, isS := ast.Unparen(ix.Index).(*ast.SelectorExpr); isS && s.Sel.Name == "WebhookId" {
-						lookup = true
+				found = false
+				for _, cj := range conjuncts(src) {
+					if isLookupOK(cj) {
+						found = true
 					}
 				}
-				if !lookup {
-					ok = false
+				if !found {
+					break
 				}
+			}
+			if !found {
+				ok = false
 			}
 		}
 		r4.Check(ok && nret > 0, f.Key, f.Decl.Pos(), "configuration id equal && webhook id known", "CanHandleEvent does not require both the configuration id and the webhook id of the request to match: a request can be handed to a hook/binding that did not register that path")
